@@ -28,8 +28,9 @@ spec fn key_info(re: Option<Result<regex::Regex, regex::Error>>, line: Seq<char>
         None => if is_blank(line) { None } else {
             Some((trim_spec(line), (trim_lead(line) + 1) as int, trim_lead(line) + 1 + blen(trim_spec(line)) - 1))
         },
+        // blank lines are ignored under a pattern as well (C06/C07: "blank and non-matching lines are ignored")
         Some(Ok(r)) =>
-            if !regex::re_is_match(r, line) { None }
+            if is_blank(line) || !regex::re_is_match(r, line) { None }
             else {
                 match regex::re_group_named(r, line, "value"@) {
                     Some(m) => Some((m.text, (m.start + 1) as int, m.end as int)),
